@@ -60,7 +60,7 @@ def run(ck, F):
         raise AnalysisBroken(f'{gop["id"]}: {e}')
     found_ok = notfound_ok = False
     shape = []
-    MAP = ('fld', ('sym', 'this'), 'mapping')
+    MAP = ('fld', ('sym', 'this'), F.role_field('ipr::impl::General_substitution', lambda fl: 'std::map<' in fl['t'], 'parameter -> expression map'))
     mapf = [fl['name'] for fl in F.need_rec('ipr::impl::General_substitution')['fields'] if 'std::map<' in fl['t']]
     if len(mapf) == 1:
         MAP = ('fld', ('sym', 'this'), mapf[0])
@@ -143,6 +143,6 @@ def run(ck, F):
              'insert/emplace keep the first binding', loc=sub['loc'], fn=sub['id'])
     # the map is keyed by parameter address and private
     rec = F.need_rec('ipr::impl::General_substitution')
-    mp = [fl for fl in rec['fields'] if fl['name'] == 'mapping' or 'std::map<' in fl['t']]
+    mp = [fl for fl in rec['fields'] if 'std::map<' in fl['t']]
     ck.check(RG, 'map type', len(mp) == 1 and mp[0]['t'].startswith('std::map<const ipr::Parameter *, const ipr::Expr *'),
              f'General_substitution stores its bindings in {[m["t"] for m in mp]}', loc=rec['loc'])
